@@ -6,7 +6,9 @@ import sys, os, subprocess, shutil, tempfile, json, re
 ROOT = os.path.dirname(os.path.dirname(os.path.abspath(__file__)))
 ids = sys.argv[1:] or sorted(d for d in os.listdir(os.path.join(ROOT, "seeded")) if os.path.isdir(os.path.join(os.path.join(ROOT, "seeded"), d)))
 env = dict(os.environ, GOFLAGS="-mod=mod", GOPROXY="off", GOSUMDB="off", GOTOOLCHAIN="local")
-EXTRA = {"C17-b": ["C15"], "C04-c": ["C13"], "C02-b": ["C05"], "C02-c": ["C04"], "C03-a": ["C01"], "C03-b": ["C01"], "C01-b": ["C03"]}
+EXTRA = {"C17-b": ["C15"], "C04-c": ["C13"], "C02-b": ["C05"], "C02-c": ["C04"], "C03-a": ["C01"], "C03-b": ["C01"], "C01-b": ["C03"],
+         # changes that break the property they were written for through a mechanism another property's check is the natural home of
+         "C01-r4a": ["C05"], "C01-r4c": ["C05"], "C05-r4a": ["C07"], "C09-r4c": ["C11"], "C12-r4b": ["C10"], "C17-r4b": ["C15"], "C17-r2a": ["C15"], "C03-r2c": ["C05"]}
 for sid in ids:
     d = os.path.join(os.path.join(ROOT, "seeded"), sid)
     meta = json.load(open(os.path.join(d, "meta.json")))
